@@ -3,6 +3,7 @@ import os, re, json, struct, random, tempfile, shutil, itertools, traceback, sys
 import common
 from common import VERIF
 import c11_world as W
+import c11_xref
 
 PID = 'C11'
 GENS = ['bspfmt']
@@ -402,6 +403,8 @@ def _run_world(tmp, cfg, pv, size, empty, wseed, views=None, tag='x'):
         res['nonempty_views'] = sorted(v for v in use if exp[v] not in (None, [], ()) and not (v == 'ents' and not exp[v][2]))
         res['nonempty'] = len(res['nonempty_views'])
         out = os.path.join(tmp, f'out_{tag}.bsp')
+        if views is None:
+            res['xref'] = c11_xref.install(bsp, cfg)      # record what the cross-reference writers see and produce
         bsp.save(out)
     except Exception as e:
         res['save_exc'] = f'{type(e).__name__}: {e}'
@@ -752,6 +755,24 @@ def _corr_ents(ctx, drv):
                 ctx.disagree(case, str(outs)[:300], str(mo)[:300], 'Output.parse / model parseOut')
 
 
+def _corr_xref(ctx, drv):
+    """faces / brushes+sides / leafs / nodes writers: bytes and tables vs Model/C11Lumps.lean"""
+    reqs, meta = [], []
+    for res in _worlds(ctx):
+        for name, req, exp in res.get('xref', []):
+            if name == 'capture-error':
+                ctx.notes.append(f'xref capture: {req}')
+                continue
+            reqs.append(req)
+            meta.append((res['case'], name, req, exp))
+    for (case, name, req, exp), rep in zip(meta, drv.batch(reqs)):
+        ctx.traces_vs_impl += 1
+        ctx.count('xref-writer:' + name)
+        err = c11_xref.compare(req, exp, rep)
+        if err:
+            ctx.disagree(dict(case, lump=name), err[:400], '', 'cross-reference writer bytes/tables: ' + name)
+
+
 def correspond(ctx, drivers):
     drv = drivers['drv_c11']
     _corr_struct(ctx, drv)
@@ -759,6 +780,7 @@ def correspond(ctx, drivers):
     _corr_finders(ctx, drv)
     _corr_lumps(ctx, drv)
     _corr_ents(ctx, drv)
+    _corr_xref(ctx, drv)
 
 
 # =============================================================================== probes
